@@ -95,8 +95,14 @@ func tagIncludeParser(doc *Parser, start *Token, arguments *Parser) (INodeTag, *
 		withPairs: make(map[string]IEvaluator),
 	}
 
-	if filenameToken := arguments.MatchType(TokenString); filenameToken != nil {
+	// A string literal is a static name only if it is the whole name expression
+	// ("d/" + n and "d/"|add:n start with a literal, too, but are computed names)
+	staticName := arguments.PeekType(TokenString) != nil &&
+		(arguments.Remaining() == 1 || arguments.PeekTypeN(1, TokenIdentifier) != nil)
+
+	if filenameToken := arguments.PeekType(TokenString); staticName {
 		// prepared, static template
+		arguments.Consume()
 
 		// "if_exists" flag
 		ifExists := arguments.Match(TokenIdentifier, "if_exists") != nil
